@@ -5,9 +5,12 @@
 //	         one pooled filter for all documents of a request) on generated JSON objects x field lists
 //	pipe     search.tryParseFieldsFilter on rendered query texts (token lists with 0, 1, 2 pipes,
 //	         malformed lists, keywords used as names, quoted names)
+//	pipe-text search.tryParseFieldsFilter on query TEXTS whose search expression holds `|` inside quoted values (three quote
+//	         kinds, escapes) and `#` comments; the Coq model (ModelLex.v) scans the same bytes for the first top-level `|`
 //	page     a real cluster in one process (tests/setup: proxy + store over loopback gRPC): documents
 //	         ingested through the proxy's bulk API, then Ingestor.Search with and without `| fields`,
 //	         Ingestor.Documents with a FieldsFilter, and GrpcV1.Fetch on the store with a FieldsFilter
+//	         (class page-search-lex: Ingestor.Search with `|` inside quoted values / comments of the expression)
 //
 // and writes what it observed as Coq cases (props/C20/coq/CaseDefs.v). The JSON oracle is
 // independent of insane-json: encoding/json (UseNumber) token stream for the top level, values
